@@ -226,6 +226,9 @@ func driverRT(c *Ctx) {
 		if i%16 == 11 {
 			how = "deep" // many lists open at once
 		}
+		if i%32 == 19 {
+			how = "twin-counts" // a list and a list inside it with the same number of elements
+		}
 		var m *ast.DataMessage
 		var item ast.ItemNode = ast.NewEmptyItemNode()
 		depth := 1 + g.pick(4)
@@ -236,6 +239,24 @@ func driverRT(c *Ctx) {
 			}
 		case "boundary":
 			item = sizeBoundaryItem(g, big).Build()
+		case "twin-counts":
+			// <L[n] s.. <L[n] t..> ..>: the inner list behind a few small siblings, its first child unlike the outer one's
+			n := []int{2, 15, 16, 255, 256, 257, 300}[g.pick(7)]
+			inner := make([]interface{}, n)
+			outer := make([]interface{}, n)
+			for k := 0; k < n; k++ {
+				inner[k] = ast.NewUintNode(1, 1+k%200)
+				outer[k] = ast.NewUintNode(1, 201+k%50)
+			}
+			if g.pick(2) == 0 {
+				inner[0] = ast.NewBooleanNode(true)
+			}
+			at := 4
+			if n < at {
+				at = n
+			}
+			outer[g.pick(at)] = ast.NewListNode(inner...)
+			item = ast.NewListNode(outer...)
 		case "deep":
 			d := []int{8, 15, 16, 17, 18, 31, 32, 33, 64, 65, 100}[g.pick(11)] // (the JSON reader of TLC nests at most 255 deep)
 			var cur ast.ItemNode = g.leaf(false).Build()
@@ -252,7 +273,7 @@ func driverRT(c *Ctx) {
 			item = cur
 		}
 		switch how {
-		case "factory", "boundary", "deep":
+		case "factory", "boundary", "deep", "twin-counts":
 			m = buildComplete(g, gm, item, 0)
 		case "lifecycle":
 			m = buildComplete(g, gm, item, 1)
